@@ -63,7 +63,9 @@ def takeNat (stop : Char) (cs : List Char) : Option (Nat × List Char) :=
 def takeStr (cs : List Char) : Option (String × List Char) :=
   match takeNat ':' cs with
   | none => none
-  | some (n, rest) => if rest.length < n then none else some (String.ofList (rest.take n), rest.drop n)
+  | some (n, rest) =>
+    let t := rest.take n
+    if t.length < n then none else some (String.ofList t, rest.drop n)
 
 mutual
 def decJ : Nat → List Char → Option (JVal × List Char)
